@@ -19,16 +19,19 @@ class Contain:
     max_degree = 2
     ob_timeout_ms = 20000
 
-    def __init__(self, A, B, mode="shape", flag=True, swap=False, lim=3, direction=(3, 1)):
+    def __init__(self, A, B, mode="shape", flag=True, swap=False, lim=3, direction=(3, 1), dof=1):
         self.A, self.B, self.mode, self.flag, self.swap = A, B, mode, flag, swap
         self.lim = lim
         self.dir = (F(direction[0]), F(direction[1]))
-        self.names = ["t", "px", "py"]
+        self.dof = dof
+        self.names = (["t"] if dof == 1 else ["tx", "ty"]) + ["px", "py"]
 
     def domain(self, xs):
-        return [xs[0] >= -self.lim, xs[0] <= self.lim]
+        return [c for x in xs[: self.dof] for c in (x >= -self.lim, x <= self.lim)]
 
     def shift(self, xs):
+        if self.dof == 2:
+            return xs[0], xs[1]
         return xs[0] * self.dir[0], xs[0] * self.dir[1]
 
     def run(self, xs):
@@ -53,8 +56,8 @@ class Contain:
         return (rb, ra) if self.swap and self.mode == "shape" else (ra, rb)
 
     def oblige(self, tr, out):
-        xs = [Sym.var(i, 0) for i in range(3)]
-        px, py = xs[1], xs[2]
+        xs = [Sym.var(i, 0) for i in range(len(self.names))]
+        px, py = xs[-2], xs[-1]
         outer, inner = self.regs(xs)
         po, pi = R.polys_of(outer), R.polys_of(inner)
         obs = []
@@ -94,14 +97,14 @@ class Contain:
 
     def _forall_subset(self, tr, inner, outer, po):
         """`in` says False: violated at those t of the cell for which *every* point of inner lies in the closure of outer"""
-        xs = [Sym.var(i, 0) for i in range(3)]
-        body = z3.Implies(R.z_in(inner, xs[1], xs[2]), z3.Or(R.z_in(outer, xs[1], xs[2]), R.z_on_boundary(xs[1], xs[2], po)))
+        xs = [Sym.var(i, 0) for i in range(len(self.names))]
+        body = z3.Implies(R.z_in(inner, xs[-2], xs[-1]), z3.Or(R.z_in(outer, xs[-2], xs[-1]), R.z_on_boundary(xs[-2], xs[-1], po)))
         return ("`in` says False but every point of the inner region lies in the closure of the outer one",
-                z3.ForAll([tr.zvars[1], tr.zvars[2]], body), {"quantified": True})
+                z3.ForAll([tr.zvars[-2], tr.zvars[-1]], body), {"quantified": True})
 
     def _forall_curve(self, tr, curve, outer, po):
-        xs = [Sym.var(i, 0) for i in range(3)]
-        s = xs[1]
+        xs = [Sym.var(i, 0) for i in range(len(self.names))]
+        s = xs[-2]
         cs = []
         for i in range(len(curve)):
             a, b = curve[i], curve[(i + 1) % len(curve)]
@@ -110,7 +113,7 @@ class Contain:
             onb = R.z_on_boundary(qx, qy, po)
             cs.append(z3.Or(inn, onb) if self.flag else z3.And(inn, z3.Not(onb)))
         body = z3.Implies(R.zand(s >= 0, s <= 1), z3.And(cs))
-        return ("contains_jordan says False but every point of the curve is contained", z3.ForAll([tr.zvars[1]], body), {"quantified": True})
+        return ("contains_jordan says False but every point of the curve is contained", z3.ForAll([tr.zvars[-2]], body), {"quantified": True})
 
     def on_raise(self, exc, func, line):
         return "containment query raised " + exc
@@ -190,6 +193,9 @@ def specs(tier):
     for A, B in pairs[: 3 if tier == "quick" else len(pairs)]:
         for flag in (True, False):
             out.append(dict(module="checks.c03", scenario="Contain", params=dict(A=A, B=B, mode="jordan", flag=flag), time_budget=None if tier == "quick" else 1800))
+    if tier != "quick":
+        for A, B in [("big", "square"), ("penta", "unit"), ("hollow", "unit")]:
+            out.append(dict(module="checks.c03", scenario="Contain", params=dict(A=A, B=B, dof=2, lim=2), time_budget=1800))
     for d in ((0, 1), (1, 0)):
         out.append(dict(module="checks.c03", scenario="Contain", params=dict(A="youb", B="bar2", direction=list(d), lim=2), time_budget=None if tier == "quick" else 1800))
         out.append(dict(module="checks.c03", scenario="Contain", params=dict(A="youb", B="bar2", direction=list(d), lim=2, mode="jordan"), time_budget=None if tier == "quick" else 1800))
